@@ -5,8 +5,9 @@
    Every theorem quantifies over
      max, timeout : the pool parameters max_idle (0 included) and idle_timeout,
      specs        : ANY list of threads -- borrowers (cmd key, does the spawn succeed, script of
-                    unary / open-stream / tick / close operations, the callback invocations at which on_log
-                    raises), reapers, closers,
+                    unary / open-stream / tick / close / cancel operations, the callback invocations at which
+                    on_log raises and the class of the exception: uncaught by the client, OSError, RpcError,
+                    pa.ArrowInvalid), reapers, closers,
      sch          : ANY schedule (list of Tick | Kill pid | Thr i, any length). *)
 From Coq Require Import List Arith Bool.
 From VGI Require Import M_Pool L_Pool.
@@ -42,7 +43,7 @@ Proof. intros. apply (reuse_only_clean_alive cfg_fixed max timeout cfg_fixed_ok)
 Print Assumptions C32_reuse_only_clean_alive.
 
 (* ---- non-vacuity ------------------------------------------------------------------------------- *)
-Definition ex_specs := [SB 0 true [OUnary] []; SB 0 true [OOpen true; OTick] [2; 3]; SB 0 true [OUnary] []].
+Definition ex_specs := [SB 0 true [OUnary] []; SB 0 true [OOpen true; OTick] [(2, XPlain); (3, XPlain)]; SB 0 true [OUnary] []].
 Definition ex_sch := repeat (Thr 0) 9 ++ repeat (Thr 1) 11 ++ repeat (Thr 2) 9.
 (* borrower 0 returns worker 0; borrower 1 reuses it (a reuse hand-out exists), dirties it by an interrupted tick and
    an interrupted close-drain, so it is discarded; borrower 2 gets a fresh worker, which ends up idle *)
@@ -59,4 +60,19 @@ Example C32_ex_owners :
 Proof. vm_compute. reflexivity. Qed.
 (* max_idle = 0: nothing is kept *)
 Example C32_ex_max0 : idle_total (g_idle (fst (run cfg_fixed 0 3 (init ex_specs) ex_sch))) = 0.
+Proof. vm_compute. reflexivity. Qed.
+(* a stream ended with cancel() whose drain is cut short by an on_log raising RpcError (swallowed by cancel()):
+   the worker is discarded, the next borrower gets a fresh one *)
+Example C32_ex_cancel :
+  map (fun h => (h_thread h, h_pid h, h_reused h))
+      (g_handouts (fst (run cfg_fixed 2 3 (init [SB 0 true [OOpen false; OTick; OCancel] [(4, XRpc)]; SB 0 true [OUnary] []])
+                            (repeat (Thr 0) 12 ++ repeat (Thr 1) 10))))
+  = [(0, 0, false); (1, 1, false)].
+Proof. vm_compute. reflexivity. Qed.
+(* ... and an undisturbed cancel() leaves the worker reusable *)
+Example C32_ex_cancel_clean :
+  map (fun h => (h_thread h, h_pid h, h_reused h, h_clean h))
+      (g_handouts (fst (run cfg_fixed 2 3 (init [SB 0 true [OOpen false; OTick; OCancel] []; SB 0 true [OUnary] []])
+                            (repeat (Thr 0) 12 ++ repeat (Thr 1) 10))))
+  = [(0, 0, false, true); (1, 0, true, true)].
 Proof. vm_compute. reflexivity. Qed.
